@@ -38,7 +38,8 @@ INSTANCE = Union[None, bool, int, str, List[int], Dict[str, int]]
 INSTANCE_NO_INT = Union[None, bool, str, List[str], Dict[str, bool]]
 # ... and because even a *length* is a symbolic integer (len(x) < 2.0), instances that meet float keyword values, or a symbolic divisor,
 # come from a concrete catalogue chosen by a symbolic index
-INST_CAT = [None, True, 0, 3, -4, 2.5, 1e308, 10 ** 30, "", "ab", [], [1, 2], [[], "x", None], {}, {"a": 1, "b": [2]}]
+INST_CAT = [None, True, 0, 3, -4, 2.5, 1e308, 10 ** 30, "", "ab", [], [1, 2], [[], "x", None], {}, {"a": 1, "b": [2]},
+            "2020-01-01", "1.2.3.4", "a@b", "::1", "12:00:00", "(", "\u00e9.example"]
 
 
 def concrete_instance_needed(k, kind):
@@ -155,7 +156,9 @@ def single(d, k, kind, position="root", eps="core", exclude=(), small_cat=False)
             base["definitions"] = {"a": {"type": "integer"}}
         return place(d, base)
 
-    cat = concrete_instance_needed(k, kind)
+    # with a format checker attached the instance is concrete as well: the built-in checkers run in C code or in library models
+    # that CrossHair replaces by its own (datetime), which are not trusted (DESIGN 2.1)
+    cat = concrete_instance_needed(k, kind) or eps != "core"
 
     def pre(v, x):
         if cat and not (0 <= x < len(INST_CAT)):
